@@ -540,7 +540,11 @@ def check_cell(fn, tk, ck, t0):
             for idx in np.ndindex(common):
                 tt = np.broadcast_to(tg, common)[idx]
                 lo, la, al = (np.broadcast_to(g, common)[idx] for g in (lon_v, lat_v, alt_v))
-                ref = call(fn, tt, scalar_of(ck, lo), scalar_of(ck, la), scalar_of(ck, al))[i]
+                try:
+                    ref = call(fn, tt, scalar_of(ck, lo), scalar_of(ck, la), scalar_of(ck, al))[i]
+                except Exception as e:  # noqa
+                    bad.append(("scalar_call_raises", dict(where, element=list(idx)), type(e).__name__ + ": " + str(e)[:120], "a result"))
+                    break
                 if not angle_diff(fn, i, float(xv[idx]), float(ref)) <= 1e-6 * UNIT[fn]:
                     bad.append(("array_vs_scalar", dict(where, element=list(idx)), float(xv[idx]), float(ref)))
                     break
@@ -601,12 +605,20 @@ def check_repr(o, t, lon, lat, alt, only=None):
         for name, f in time_fns(o, lon, lat, alt).items():
             if only and name != only:
                 continue
-            ref = f(reps["datetime"])
+            try:
+                ref = f(reps["datetime"])
+            except Exception as e:  # noqa
+                bad.append((name, "datetime", type(e).__name__ + ": " + str(e)[:120], "a result"))
+                continue
             for rk, rv in reps.items():
                 if rk == "datetime":
                     continue
                 n += 1
-                got = f(rv)
+                try:
+                    got = f(rv)
+                except Exception as e:  # noqa
+                    bad.append((name, rk, type(e).__name__ + ": " + str(e)[:120], ref.tolist()))
+                    break
                 if got.shape != ref.shape or got.tobytes() != ref.tobytes():
                     bad.append((name, rk, got.tolist(), ref.tolist()))
                     break
